@@ -21,6 +21,11 @@ type Block struct {
 	Name     string   `json:"name,omitempty"`    // task: stable logical name (answer plans are keyed by node id after lowering)
 	Wrap     int      `json:"wrap,omitempty"`    // wrap this block in Wrap nested sub-processes
 	LoopVar  string   `json:"loopVar,omitempty"`
+	// Groups (mmerge): the branches are merged in groups, one exclusive gateway
+	// per group, and the groups are synchronised by a PARALLEL join with one
+	// incoming flow per group: several tokens arrive on each incoming flow of
+	// the join, in any order (equal group sizes: that many tokens run the tail)
+	Groups []int `json:"groups,omitempty"`
 }
 
 // port is an open exit of a lowered block.
@@ -34,6 +39,11 @@ type Lowered struct {
 	G *Graph
 	// TaskOf maps lowered task node ids to their AST block.
 	TaskOf map[string]*Block
+}
+
+// LowerStyle is Lower with an id style (see B.Style).
+func LowerStyle(blk *Block, style int) *Lowered {
+	return LowerWith(NewBStyle(style), blk)
 }
 
 // Lower turns start -> blk -> end into a graph.
@@ -192,8 +202,27 @@ func (lw *Lowered) lower(b *B, blk *Block) (entry *Node, exit *port) {
 		// parallel fork whose branches are merged by an exclusive gateway
 		// (each token passes through independently)
 		fork := b.Add(KPar)
-		merge := b.Add(KXor)
 		nbr := len(blk.Kids) - 1 // last kid is the tail after the merge
+		if len(blk.Groups) > 0 {
+			j := b.Add(KPar)
+			idx := 0
+			for _, size := range blk.Groups {
+				gm := b.Add(KXor)
+				for i := 0; i < size && idx < nbr; i++ {
+					e, x := lw.lower(b, blk.Kids[idx])
+					idx++
+					b.Connect(fork, e)
+					if x != nil {
+						lw.connect(b, x, gm, nil, nil, 0)
+					}
+				}
+				b.Connect(gm, j)
+			}
+			te, tx := lw.lower(b, blk.Kids[nbr])
+			b.Connect(j, te)
+			return fork, tx
+		}
+		merge := b.Add(KXor)
 		for _, k := range blk.Kids[:nbr] {
 			e, x := lw.lower(b, k)
 			b.Connect(fork, e)
@@ -462,6 +491,12 @@ func (c *genCtx) block(t *rapid.T, depth int, mayEnd bool, allowMM bool) *Block 
 		c.budget -= 2
 		nb := rapid.IntRange(2, 3).Draw(t, "mmBranches")
 		blk := &Block{K: "mmerge", Def: -1}
+		if rapid.IntRange(0, 2).Draw(t, "mmGroups") == 0 {
+			// two groups of 1..2 tokens each, synchronised by a parallel join
+			k := rapid.IntRange(1, 2).Draw(t, "mmGroupSize")
+			blk.Groups = []int{k, k}
+			nb = 2 * k
+		}
 		save := *c
 		c.underPar, c.underFork = true, true
 		for i := 0; i < nb; i++ {
